@@ -256,6 +256,10 @@ def run(ctx):
     ctx.trust("sa/alg.py, sa/xeval.py, sa/xarray.py (exact numpy-like tables)")
     ctx.assume("unique solvability (C02), exact scatter-add (C03) and exact elimination (C04) complete the patch test")
     ctx.assume("R1.6 on quadrangles/hexahedra/prisms uses one generic rational straight-sided geometry: a polynomial identity in the vertex coordinates is checked at a generic point (Schwartz-Zippel), exactly in the reference coordinates")
+    # 'to round-off, for every mesh': no tolerance-gated shortcut in the kernels the patch test runs through
+    from ..shared import approx_guard_rule
+
+    approx_guard_rule(ctx, "R1.8", ["EasyFEA.FEM._group_elem", "EasyFEA.FEM._gauss", "EasyFEA.FEM._linalg", "EasyFEA.FEM.Operators.Bilinear", "EasyFEA.Simulations.Solvers"])
     lib = ElemLib(ctx.repo)
     gl = GaussLib(ctx.repo)
     c06.lagrange_rules(ctx, lib)  # R6.1-R6.4 are R1.1/R1.2
